@@ -278,6 +278,7 @@ func (conn *Conn) recv() {
 			})
 		}
 	}
+	pipeline.Close()
 	conn.mutex.Lock()
 	conn.shutdown = true
 	if err == io.EOF {
@@ -302,7 +303,6 @@ func (conn *Conn) recv() {
 	if conn.readStream != nil {
 		conn.readStream.Close()
 	}
-	pipeline.Close()
 }
 
 func (conn *Conn) read(ctx *Context, async bool) {
